@@ -47,6 +47,49 @@ var (
 	podGroupGVR = schema.GroupVersionResource{Group: "scheduling.run.ai", Version: "v2alpha2", Resource: "podgroups"}
 )
 
+// waitDRASynced waits until the DRA manager's claim tracker (an assume cache fed by informer *event handlers*,
+// which run after the informer store reports synced) reflects every ResourceClaim of the store. A production
+// scheduler has this race once, at start-up; the harness starts a cache per cycle and must not turn it into
+// a source of findings.
+func waitDRASynced(c cache.Cache, s *Store) {
+	want := map[string]bool{}
+	for _, rc := range s.Claims() {
+		want[rc.Namespace+"/"+rc.Name] = rc.Status.Allocation != nil
+	}
+	if len(want) == 0 {
+		return
+	}
+	k8sPlugins := c.InternalK8sPlugins()
+	if k8sPlugins == nil || k8sPlugins.FrameworkHandle == nil || k8sPlugins.FrameworkHandle.SharedDRAManager() == nil {
+		return
+	}
+	mgr := k8sPlugins.FrameworkHandle.SharedDRAManager()
+	for i := 0; i < 50000; i++ {
+		ok := false
+		if cl, err := mgr.ResourceClaims().List(); err == nil && len(cl) == len(want) {
+			ok = true
+			for _, rc := range cl {
+				if allocated, known := want[rc.Namespace+"/"+rc.Name]; !known || allocated != (rc.Status.Allocation != nil) {
+					ok = false
+					break
+				}
+			}
+		}
+		if ok {
+			if sl, err := mgr.ResourceSlices().ListWithDeviceTaintRules(); err == nil {
+				n := 0
+				if l, err := s.Kube.ResourceV1().ResourceSlices().List(context.Background(), metav1.ListOptions{}); err == nil {
+					n = len(l.Items)
+				}
+				if len(sl) == n {
+					return
+				}
+			}
+		}
+		time.Sleep(2 * time.Millisecond)
+	}
+}
+
 // processCPU is the CPU time (user + system) this process has consumed so far.
 func processCPU() time.Duration {
 	var ru syscall.Rusage
@@ -536,6 +579,7 @@ func RunCycle(s *Store, cfg *Config, sc *CycleScript, idx int, opt *Options) *Cy
 		c.Run(stopCh)
 		time.Sleep(3 * time.Millisecond)
 		c.WaitForCacheSync(stopCh)
+		waitDRASynced(c, s)
 		rc = &recordingCache{Cache: c, failEvictCall: sc.FailEvictCall}
 		ssn, err := framework.OpenSession(rc, schedConf, params, fmt.Sprintf("c%d", idx), mux)
 		if err != nil {
